@@ -6,15 +6,22 @@
    time ix: tiappend <ts:id,…|->                          → <sorted ts:id,…|-> <hex bytes> <hex blake3(bytes)>
             tiread <hex stream> <offset> <length>        → (ok <ts:id,…|-> | err <reason>) pre=<none | <capacity>:ok | <capacity>:panic>
             tichk <ts:id,…|->                             → <hex checksum>
-   toc:     see MvModel/Toc.lean (tocdec / tocenc / tocsum / bdec) -/
+   toc:     tocdec <hex>      → ok <hex re-encoding of the decoded value> wt=<0|1> | err <trailing|trailing_v2|trailing_v1|decode>
+            toclen <hex>      → the same for decode_lenient
+            tocsum <hex>      → err <…> | ok <0|1>   (decode, then verify_checksum with BLAKE3)
+            utf8 <hex>        → 0 | 1
+   `ext` (chrono's DateTime parser) is the identity in this driver; the harness accounts for it. -/
 import MvModel.Header
 import MvModel.Footer
 import MvModel.TimeIndex
+import MvModel.Toc
 import MvModel.Blake3
 import MvModel.DrvUtil
 open Mv
 
 namespace C30Drv
+
+def extId (_ : Nat) (b : Bytes) : Option Bytes := some b
 
 def parseEntry (s : String) : Option TimeIndex.Entry :=
   match s.splitOn ":" with
@@ -75,6 +82,24 @@ def stepCodec (ws : List String) : Option String :=
           s!"{req}:{if TimeIndex.preallocPanics req then "panic" else "ok"}"
       some s!"{r} pre={pre}"
     | _, _, _ => some "bad-op"
+  | ["tocdec", h] => match ofHex h with
+    | some b => match Toc.decodeToc extId b with
+      | .ok t => some s!"ok {toHexW (Toc.encodeToc t)} wt={if Bincode.wt extId Gen.C30Toc.tocSchema t then 1 else 0}"
+      | .error e => some s!"err {e.name}"
+    | none => some "bad-op"
+  | ["toclen", h] => match ofHex h with
+    | some b => match Toc.decodeLenient extId b with
+      | .ok t => some s!"ok {toHexW (Toc.encodeToc t)} wt={if Bincode.wt extId Gen.C30Toc.tocSchema t then 1 else 0}"
+      | .error e => some s!"err {e.name}"
+    | none => some "bad-op"
+  | ["tocsum", h] => match ofHex h with
+    | some b => match Toc.decodeToc extId b with
+      | .ok t => some s!"ok {if Toc.verifyChecksum Blake3.hash t then 1 else 0}"
+      | .error e => some s!"err {e.name}"
+    | none => some "bad-op"
+  | ["utf8", h] => match ofHex h with
+    | some b => some (if Bincode.utf8Valid b then "1" else "0")
+    | none => some "bad-op"
   | _ => none
 
 end C30Drv
